@@ -1,8 +1,9 @@
 SPECIFICATION Spec
 CONSTANTS
   MaxLen = 2
-  Syms = {"id", "mut", "ref", "at", "raw", "fnname", "fnname_", "rawfn", "gnext", "gprev", "ugnext", "ugprev", "wild", "tup2", "tup0", "ts1", "ts1w", "st1", "sts", "refp", "tsu", "nest2", "liftfn", "liftfn_", "tsmut", "stref", "tsat", "tsraw"}
+  Syms = {"id", "mut", "ref", "at", "raw", "fnname", "fnname_", "rawfn", "gnext", "gprev", "ugnext", "ugprev", "wild", "tup2", "tup0", "ts1", "ts1w", "st1", "sts", "refp", "tsu", "nest2", "liftfn", "liftfn_", "tsmut", "stref", "tsat", "tsraw", "implname"}
   Extra3 = {"wild", "tup2", "gnext", "gprev", "ugnext", "ugprev"}
+  ImplFull = 1
   DumpCases = TRUE
-INVARIANTS TypeOK StepwiseIsFinal TakenExact GenFresh Refines OneNamePerParam
+INVARIANTS TypeOK StepwiseIsFinal TakenExact GenFresh Refines OneNamePerParam InsertedNameIsFree
 CHECK_DEADLOCK FALSE
